@@ -416,8 +416,11 @@ namespace GeographicLib {
           calp1 = (calp1a + calp1b)/2;
           Math::norm(salp1, calp1);
           tripn = false;
-          tripb = (fabs(salp1a - salp1) + (calp1a - calp1) < tolb_ ||
-                   fabs(salp1 - salp1b) + (calp1 - calp1b) < tolb_);
+          // The width of the bracket is measured relative to the smaller of
+          // |salp1| and |calp1| (see GeodesicExact.cpp)
+          real tolx = tolb_ * fmin(fabs(salp1), fabs(calp1));
+          tripb = (fabs(salp1a - salp1) + (calp1a - calp1) < tolx ||
+                   fabs(salp1 - salp1b) + (calp1 - calp1b) < tolx);
         }
         {
           real dummy;
